@@ -30,6 +30,7 @@ import (
 type c20Step struct {
 	Shell  string // "" = none
 	Script string // without the unique marker
+	Plain  bool   // no unique marker: the script is used as it is (equal scripts in several steps)
 }
 
 type c20Job struct {
@@ -48,6 +49,10 @@ type c20Scenario struct {
 	Files []c20File
 	CPUs  int
 	API   string // LintFiles | LintFile | Lint
+	// BrokenLastRepo: the last file lives in a repository of its own whose actionlint.yaml cannot
+	// be parsed: the run must end with a fatal error, after everything started for the earlier
+	// files has finished
+	BrokenLastRepo bool
 }
 
 type c20Expect struct {
@@ -125,6 +130,9 @@ func (sc *c20Scenario) render() (texts []string, exp []c20Expect) {
 			for si := range j.Steps {
 				s := &j.Steps[si]
 				script := fmt.Sprintf("echo m%d%d%d %s", fi, ji, si, s.Script)
+				if s.Plain {
+					script = s.Script
+				}
 				runLine := line
 				w("      - run: " + script)
 				if s.Shell != "" {
@@ -252,6 +260,12 @@ func c20Judge(sc *c20Scenario, exp []c20Expect, x *vsched.Exec, run *c20Run) str
 	if run.unfinished > 0 {
 		return fmt.Sprintf("returned-before-collected\x00%s returned (err=%v) while %d goroutine(s) of tool invocations had not finished", sc.API, run.err, run.unfinished)
 	}
+	if sc.BrokenLastRepo {
+		if run.err == nil {
+			return "broken-config-not-fatal\x00the configuration of the last file's repository cannot be parsed but no fatal error was returned"
+		}
+		return ""
+	}
 	if len(faults) > 0 {
 		if run.err == nil {
 			return fmt.Sprintf("fault-not-fatal:%s\x00tool failure %v did not yield a fatal error; %d diagnostics returned", faults[0], faults, len(run.errs))
@@ -268,6 +282,7 @@ func c20Judge(sc *c20Scenario, exp []c20Expect, x *vsched.Exec, run *c20Run) str
 	}
 	got := []string{}
 	issuesByStdin := map[string]int{}
+	issueList := map[string][]int{} // per (tool, stdin): the issue counts of its invocations
 	for i, inv := range run.finished {
 		tool := filepath.Base(inv.Name)
 		shell := ""
@@ -284,6 +299,7 @@ func c20Judge(sc *c20Scenario, exp []c20Expect, x *vsched.Exec, run *c20Run) str
 			}
 		}
 		issuesByStdin[tool+"|"+inv.Stdin] += n
+		issueList[tool+"|"+inv.Stdin] = append(issueList[tool+"|"+inv.Stdin], n)
 	}
 	sort.Strings(want)
 	sort.Strings(got)
@@ -292,9 +308,16 @@ func c20Judge(sc *c20Scenario, exp []c20Expect, x *vsched.Exec, run *c20Run) str
 	}
 	// one diagnostic per issue at the step's run: key
 	wantD := map[string]int{}
+	shared := map[string][]string{} // (tool, stdin) handed over by several steps -> their positions
 	for _, e := range exp {
-		if n := issuesByStdin[e.tool+"|"+e.stdin]; n > 0 {
-			wantD[fmt.Sprintf("f%d:%d:%d:%s", e.file, e.line, e.col, e.tool)] += n
+		k := e.tool + "|" + e.stdin
+		pos := fmt.Sprintf("f%d:%d:%d:%s", e.file, e.line, e.col, e.tool)
+		if len(issueList[k]) > 1 {
+			shared[k] = append(shared[k], pos)
+			continue
+		}
+		if n := issuesByStdin[k]; n > 0 {
+			wantD[pos] += n
 		}
 	}
 	gotD := map[string]int{}
@@ -308,6 +331,22 @@ func c20Judge(sc *c20Scenario, exp []c20Expect, x *vsched.Exec, run *c20Run) str
 			return fmt.Sprintf("diag-message\x00unexpected message %q", e.Message)
 		}
 		gotD[fmt.Sprintf("f%d:%d:%d:%s", fi, e.Line, e.Column, e.Kind)]++
+	}
+	// steps whose scripts are equal after sanitising: which invocation belongs to which step cannot
+	// be told, so the issue counts of the invocations and the diagnostic counts of the steps are
+	// compared as multisets
+	for k, poss := range shared {
+		var a, b []int
+		for _, p := range poss {
+			a = append(a, gotD[p])
+			delete(gotD, p)
+		}
+		b = append(b, issueList[k]...)
+		sort.Ints(a)
+		sort.Ints(b)
+		if fmt.Sprint(a) != fmt.Sprint(b) {
+			return fmt.Sprintf("diagnostics\x00steps %v share one script: diagnostics per step %v, issues per invocation %v", poss, a, b)
+		}
 	}
 	if fmt.Sprint(wantD) != fmt.Sprint(gotD) {
 		return fmt.Sprintf("diagnostics\x00diagnostics per run: key differ: got %v want %v", gotD, wantD)
@@ -325,36 +364,45 @@ func c20Scenarios() []*c20Scenario {
 	job := func(runsOn, def string, steps ...c20Step) c20Job { return c20Job{runsOn, def, steps} }
 	// shell sources, one run step each (single file: LintFile and Lint paths)
 	for _, api := range []string{"LintFile", "Lint"} {
-		one("step-bash/"+api, c20File{Jobs: []c20Job{job("ubuntu-latest", "", c20Step{"bash", ph})}}, 2, api)
-		one("runner-default/"+api, c20File{Jobs: []c20Job{job("ubuntu-latest", "", c20Step{"", two})}}, 2, api)
+		one("step-bash/"+api, c20File{Jobs: []c20Job{job("ubuntu-latest", "", c20Step{Shell: "bash", Script: ph})}}, 2, api)
+		one("runner-default/"+api, c20File{Jobs: []c20Job{job("ubuntu-latest", "", c20Step{Shell: "", Script: two})}}, 2, api)
 	}
-	one("step-sh", c20File{Jobs: []c20Job{job("ubuntu-latest", "", c20Step{"sh", ph})}}, 2, "LintFile")
-	one("step-python", c20File{Jobs: []c20Job{job("ubuntu-latest", "", c20Step{"python", ph})}}, 2, "LintFile")
-	one("step-custom-bash", c20File{Jobs: []c20Job{job("ubuntu-latest", "", c20Step{"bash -e {0}", ph})}}, 2, "LintFile")
-	one("step-custom-python", c20File{Jobs: []c20Job{job("ubuntu-latest", "", c20Step{"python {0}", "x"})}}, 2, "LintFile")
-	one("step-pwsh-unchecked", c20File{Jobs: []c20Job{job("ubuntu-latest", "", c20Step{"pwsh", ph}, c20Step{"", "y"})}}, 2, "LintFile")
-	one("job-default-python", c20File{Jobs: []c20Job{job("ubuntu-latest", "python", c20Step{"", ph}, c20Step{"bash", "x"})}}, 2, "LintFile")
-	one("job-default-sh", c20File{Jobs: []c20Job{job("ubuntu-latest", "sh", c20Step{"", ph})}}, 1, "LintFile")
-	one("workflow-default-python", c20File{DefaultShell: "python", Jobs: []c20Job{job("ubuntu-latest", "", c20Step{"", ph}), job("ubuntu-latest", "bash", c20Step{"", "x"})}}, 2, "LintFile")
-	one("workflow-default-bash-job-python", c20File{DefaultShell: "bash", Jobs: []c20Job{job("ubuntu-latest", "python", c20Step{"", ph})}}, 2, "LintFile")
-	one("windows-runner", c20File{Jobs: []c20Job{job("windows-latest", "", c20Step{"", ph}, c20Step{"bash", "x"}), job("ubuntu-latest", "", c20Step{"", "z"})}}, 2, "LintFile")
-	one("windows-runner-job-default-bash", c20File{Jobs: []c20Job{job("Windows-2022", "bash", c20Step{"", ph})}}, 2, "LintFile")
+	one("step-sh", c20File{Jobs: []c20Job{job("ubuntu-latest", "", c20Step{Shell: "sh", Script: ph})}}, 2, "LintFile")
+	one("step-python", c20File{Jobs: []c20Job{job("ubuntu-latest", "", c20Step{Shell: "python", Script: ph})}}, 2, "LintFile")
+	one("step-custom-bash", c20File{Jobs: []c20Job{job("ubuntu-latest", "", c20Step{Shell: "bash -e {0}", Script: ph})}}, 2, "LintFile")
+	one("step-custom-python", c20File{Jobs: []c20Job{job("ubuntu-latest", "", c20Step{Shell: "python {0}", Script: "x"})}}, 2, "LintFile")
+	one("step-pwsh-unchecked", c20File{Jobs: []c20Job{job("ubuntu-latest", "", c20Step{Shell: "pwsh", Script: ph}, c20Step{Shell: "", Script: "y"})}}, 2, "LintFile")
+	one("job-default-python", c20File{Jobs: []c20Job{job("ubuntu-latest", "python", c20Step{Shell: "", Script: ph}, c20Step{Shell: "bash", Script: "x"})}}, 2, "LintFile")
+	one("job-default-sh", c20File{Jobs: []c20Job{job("ubuntu-latest", "sh", c20Step{Shell: "", Script: ph})}}, 1, "LintFile")
+	one("workflow-default-python", c20File{DefaultShell: "python", Jobs: []c20Job{job("ubuntu-latest", "", c20Step{Shell: "", Script: ph}), job("ubuntu-latest", "bash", c20Step{Shell: "", Script: "x"})}}, 2, "LintFile")
+	one("workflow-default-bash-job-python", c20File{DefaultShell: "bash", Jobs: []c20Job{job("ubuntu-latest", "python", c20Step{Shell: "", Script: ph})}}, 2, "LintFile")
+	one("windows-runner", c20File{Jobs: []c20Job{job("windows-latest", "", c20Step{Shell: "", Script: ph}, c20Step{Shell: "bash", Script: "x"}), job("ubuntu-latest", "", c20Step{Shell: "", Script: "z"})}}, 2, "LintFile")
+	one("windows-runner-job-default-bash", c20File{Jobs: []c20Job{job("Windows-2022", "bash", c20Step{Shell: "", Script: ph})}}, 2, "LintFile")
 	// semaphore smaller than the number of invocations
-	one("three-steps-cpu1", c20File{Jobs: []c20Job{job("ubuntu-latest", "", c20Step{"", ph}, c20Step{"python", "x"}, c20Step{"sh", "y"})}}, 1, "LintFile")
-	one("three-steps-cpu2", c20File{Jobs: []c20Job{job("ubuntu-latest", "", c20Step{"", ph}, c20Step{"python", "x"}, c20Step{"sh", "y"})}}, 2, "LintFile")
-	one("two-jobs-cpu1", c20File{Jobs: []c20Job{job("ubuntu-latest", "", c20Step{"", ph}), job("ubuntu-latest", "python", c20Step{"", two})}}, 1, "Lint")
+	one("three-steps-cpu1", c20File{Jobs: []c20Job{job("ubuntu-latest", "", c20Step{Shell: "", Script: ph}, c20Step{Shell: "python", Script: "x"}, c20Step{Shell: "sh", Script: "y"})}}, 1, "LintFile")
+	one("three-steps-cpu2", c20File{Jobs: []c20Job{job("ubuntu-latest", "", c20Step{Shell: "", Script: ph}, c20Step{Shell: "python", Script: "x"}, c20Step{Shell: "sh", Script: "y"})}}, 2, "LintFile")
+	one("two-jobs-cpu1", c20File{Jobs: []c20Job{job("ubuntu-latest", "", c20Step{Shell: "", Script: ph}), job("ubuntu-latest", "python", c20Step{Shell: "", Script: two})}}, 1, "Lint")
+	// equal scripts: every step is handed to the tool, also when the text (after sanitising) was seen before
+	same := c20Step{Shell: "", Script: "echo same $FOO", Plain: true}
+	one("same-script-two-steps", c20File{Jobs: []c20Job{job("ubuntu-latest", "", same, same)}}, 2, "LintFile")
+	one("same-script-two-jobs", c20File{Jobs: []c20Job{job("ubuntu-latest", "", same), job("ubuntu-latest", "", same, c20Step{Shell: "sh", Script: "echo same $FOO", Plain: true})}}, 2, "Lint")
+	one("placeholder-only-difference", c20File{Jobs: []c20Job{job("ubuntu-latest", "", c20Step{"", "echo ${{ github.sha }} $FOO", true}, c20Step{"", "echo ${{ github.ref }} $FOO", true})}}, 1, "LintFile")
+	one("same-python-script", c20File{DefaultShell: "python", Jobs: []c20Job{job("ubuntu-latest", "", c20Step{Shell: "", Script: "import os", Plain: true}), job("ubuntu-latest", "", c20Step{Shell: "", Script: "import os", Plain: true})}}, 2, "LintFile")
 	// multi-file runs
 	two2 := func(name string, a, b c20File, cpus int) {
 		scs = append(scs, &c20Scenario{Name: name, Files: []c20File{a, b}, CPUs: cpus, API: "LintFiles"})
 	}
-	fb := c20File{Jobs: []c20Job{job("ubuntu-latest", "", c20Step{"", ph})}}
-	fp := c20File{Jobs: []c20Job{job("ubuntu-latest", "", c20Step{"python", "x"})}}
-	fbp := c20File{Jobs: []c20Job{job("ubuntu-latest", "", c20Step{"", ph}, c20Step{"python", "x"})}}
+	fb := c20File{Jobs: []c20Job{job("ubuntu-latest", "", c20Step{Shell: "", Script: ph})}}
+	fp := c20File{Jobs: []c20Job{job("ubuntu-latest", "", c20Step{Shell: "python", Script: "x"})}}
+	fbp := c20File{Jobs: []c20Job{job("ubuntu-latest", "", c20Step{Shell: "", Script: ph}, c20Step{Shell: "python", Script: "x"})}}
 	two2("files-bash+python-cpu1", fb, fp, 1)
 	two2("files-bash+python-cpu2", fb, fp, 2)
 	two2("files-bash+bash-cpu1", fb, fb, 1)
 	two2("files-mixed+python-cpu2", fbp, fp, 2)
-	two2("files-none+bash-cpu1", c20File{Jobs: []c20Job{job("ubuntu-latest", "", c20Step{"pwsh", "x"})}}, fb, 1)
+	for _, cpus := range []int{1, 2} {
+		scs = append(scs, &c20Scenario{Name: fmt.Sprintf("files-mixed+broken-repository-cpu%d", cpus), Files: []c20File{fbp, fp}, CPUs: cpus, API: "LintFiles", BrokenLastRepo: true})
+	}
+	two2("files-none+bash-cpu1", c20File{Jobs: []c20Job{job("ubuntu-latest", "", c20Step{Shell: "pwsh", Script: "x"})}}, fb, 1)
 	return scs
 }
 
@@ -365,6 +413,11 @@ func c20RunScenario(t *testing.T, r *vReport, sc *c20Scenario, maxPreempt, maxFa
 	var paths []string
 	for i, tx := range texts {
 		p := fmt.Sprintf(".github/workflows/w%d.yml", i)
+		if sc.BrokenLastRepo && i == len(texts)-1 {
+			files["other/.git/HEAD"] = "ref: refs/heads/main\n"
+			files["other/.github/actionlint.yaml"] = "paths: [\n"
+			p = "other/" + p
+		}
 		files[p] = tx
 		paths = append(paths, filepath.Join(dir, p))
 	}
